@@ -4,18 +4,21 @@ PE image hash (models/pe), PE checksum and APK merkle hasher (props/c09 ops), EC
 import importlib, os, sys
 sys.path.insert(0, os.path.join(os.path.dirname(os.path.abspath(__file__)), "..", "models"))
 import pe as _pe
+import msi as _msi
 _c09 = importlib.import_module("props.c09")
 _c19 = importlib.import_module("props.c19")
 
-TIE = "corr:pe-digest + pechecksum + merkle + ecdsa"
+TIE = "corr:pe-digest + pechecksum + merkle + ecdsa + msi-digest"
 TIE_THEOREM = ("Relic.Props.C05.pe_hash_eq_spec / fix_pe_checksum_eq_spec / pe_checksum_eq_spec / apk_digest_eq_spec / "
-               "ecdsa_pack_fixed_width (models tied to lib/authenticode, signers/apk, lib/x509tools by differential execution)")
+               "ecdsa_pack_fixed_width / msi_order_eq_spec / msi_prehash_eq_spec / msi_digest_eq_spec (models tied to lib/authenticode, signers/apk, lib/x509tools by differential execution)")
 RULE = ("ops of the models that carry the model-vs-specification theorems: " + _pe.RULE + " || C09 subset: cksum, fixpe, fixpehex, merkle — "
-        + _c09.RULE[:600] + " || C19 subset: ecdsa, ecdsasign")
-ASSUMPTIONS = list(_pe.ASSUMPTIONS) + ["the specifications are transcribed by hand into Relic/Spec/{Authenticode,PEChecksum,ApkV2}.lean"]
-TRUSTED = list(_pe.TRUSTED) + ["external reference verifiers (jarsigner, JDK XML-DSig, openssl cms/ts, gpgv, dpkg) are NOT run: that half of C05 is outside this technique (DESIGN.md section 5, C05)"]
+        + _c09.RULE[:600] + " || C19 subset: ecdsa, ecdsasign || " + _msi.RULE)
+ASSUMPTIONS = list(_pe.ASSUMPTIONS) + list(_msi.ASSUMPTIONS) + ["the specifications are transcribed by hand into Relic/Spec/{Authenticode,PEChecksum,ApkV2,MsiDigest}.lean"]
+TRUSTED = list(_pe.TRUSTED) + list(_msi.TRUSTED) + ["external reference verifiers (jarsigner, JDK XML-DSig, openssl cms/ts, gpgv, dpkg) are NOT run: that half of C05 is outside this technique (DESIGN.md section 5, C05)"]
 UNPROVED = ["pe_hash_eq_msdoc_spec (the section-sorted wording of the Microsoft document; the flat form is proved)",
-            "pe_pagehash_eq_spec", "msi_order_eq_spec", "cab_digest_eq_spec", "jar_sf_eq_spec"]
+            "pe_pagehash_eq_spec", "cab_digest_eq_spec", "jar_sf_eq_spec",
+            "msi_order_eq_spec holds under hypotheses (well-formed, pairwise distinct sibling names; no signature name below the root); "
+            "outside them the code and the specification differ: msi_cmp_differs_embedded_nul"]
 IMPL_PARALLEL = 8
 
 
@@ -25,6 +28,8 @@ def _m(op):
 
 
 def canon_model(op, mres):
+    if op.startswith("MSI "):
+        return _msi.canon_model(op, mres)
     return _pe.canon_model(op, mres) if op.startswith("PE ") else mres
 
 
@@ -35,6 +40,8 @@ def canon_impl(il):
 def agree(op, il, mres, tag):
     if op.startswith("PE "):
         return _pe.equiv(op, il, mres)
+    if op.startswith("MSI "):
+        return _msi.equiv(op, il, mres)
     m = _m(op)
     if m is not None and hasattr(m, "agree"):
         return m.agree(op, il, mres, tag)
@@ -46,23 +53,31 @@ def agree(op, il, mres, tag):
 def nontrivial(op, mres, tag):
     if op.startswith("PE "):
         return _pe.nontrivial(op, mres, tag)
+    if op.startswith("MSI "):
+        return _msi.nontrivial(op, mres, tag)
     return _m(op).nontrivial(op, mres, tag)
 
 
 def branch(op, mres, tag):
     if op.startswith("PE "):
         return _pe.branch(op, mres, tag)
+    if op.startswith("MSI "):
+        return _msi.branch(op, mres, tag)
     return _m(op).branch(op, mres, tag)
 
 
 def predicate(op, il, mres, tag):
     if op.startswith("PE "):
         return _pe.predicate("C05", op, il, mres, tag)
+    if op.startswith("MSI "):
+        return _msi.predicate("C05", op, il, mres, tag)
     return _m(op).predicate(op, il, mres, tag)
 
 
 def matches_known(k, op, il, mres, tag):
     if op.startswith("PE "):
         return _pe.matches_known(k, op, il, mres, tag)
+    if op.startswith("MSI "):
+        return _msi.matches_known(k, op, il, mres, tag)
     m = _m(op)
     return m.matches_known(k, op, il, mres, tag) if hasattr(m, "matches_known") else False
